@@ -236,10 +236,14 @@ def run(ctx):
     mos = dict(wfn.SPACE)["mo"]
     shellsets = ["+d-cart", "+d-pure"] if ctx.thorough else ["+d-cart"]
     orders = ["grouped", "reversed", "interleaved"] if not ctx.thorough else dict(wfn.SPACE)["shell_order"]
+    wf_cases = []
     for c, m, ss, so in itertools.product(con, mos, shellsets, orders):
         if so != "grouped" and not (c == "segmented" or m == "restricted"):
             continue  # shell order is crossed with each of the two conversion axes, not with both at once
-        case = dict(default, contraction=c, mo=m, shellset=ss, shell_order=so)
+        wf_cases.append(dict(default, contraction=c, mo=m, shellset=ss, shell_order=so))
+    # orbital kind x extra dictionary content (a conversion must not rebind or rewrite entries of the caller's dictionaries)
+    wf_cases += [dict(default, mo=m, extras="mo_spin") for m in mos]
+    for case in wf_cases:
         for target in wfn.TARGETS:
             for allow in (False, True):
                 jobs.append(("wf", target, case, allow, 1, False))
